@@ -15,6 +15,7 @@ import (
 	"github.com/gogpu/naga/msl"
 )
 
+var reMslTemplateFn = regexp.MustCompile(`(?s)template <typename A>\n.*?\n}\n`)
 var reRtGuard = regexp.MustCompile(`_buffer_sizes\.size(\d+) - (\d+) - (\d+)\) / (\d+)`)
 
 func cmdCRtGuards(c *ctx) {
@@ -89,9 +90,15 @@ func cmdCRtGuards(c *ctx) {
 			p := g.path(e)
 			lit := map[string]string{"f32": "1.0", "i32": "1i", "u32": "1u"}[p.leaf.sc]
 			acc := fmt.Sprintf("%s[inp[0]]%s", data, p.wgsl)
+			bodyKind := ""
 			body := fmt.Sprintf("  %s = %s;\n", acc, lit)
 			if p.leaf.kind == "atomic" {
 				body = fmt.Sprintf("  atomicStore(&%s, %s);\n  let r = atomicAdd(&%s, %s);\n", acc, lit, acc, lit)
+				if (ei+pi)%2 == 0 {
+					// the compare-exchange form on its own (recorded finding: its guard is malformed)
+					bodyKind = " body=cmpxchg"
+					body = fmt.Sprintf("  let x = atomicCompareExchangeWeak(&%s, %s, %s);\n", acc, lit, lit)
+				}
 			} else if (ei+pi)%2 == 1 {
 				body = fmt.Sprintf("  let x = %s;\n  %s[1u]%s = x;\n", acc, data, p.wgsl)
 			}
@@ -111,15 +118,16 @@ func cmdCRtGuards(c *ctx) {
 				o.BoundsCheckPolicies.Index = pol
 				var text string
 				r := guard("msl", func() error { t, _, err := msl.Compile(mod, o); text = t; return err })
-				tag := fmt.Sprintf("elem=%s prefix=%d policy=%s order=%d", strings.ReplaceAll(e.wgsl(), " ", ""), pi, polName(pol), order)
+				tag := fmt.Sprintf("elem=%s prefix=%d policy=%s order=%d", strings.ReplaceAll(e.wgsl(), " ", ""), pi, polName(pol), order) + bodyKind
 				if r.err != "" {
 					c.line("rows.txt", fmt.Sprintf("error %s | %s", oneLine(r.err), tag))
 					c.line("src.txt", q(src))
 					c.line("text.txt", q(text))
 					continue
 				}
-				// the text must also be readable (atomics take the address of the guarded element)
-				if _, perr := cparse(text); perr != nil {
+				// the text must also be readable (atomics take the address of the guarded element); the templated
+				// compare-exchange helpers are outside the grammar the parser reads and are cut out first
+				if _, perr := cparse(reMslTemplateFn.ReplaceAllString(text, "")); perr != nil {
 					c.line("rows.txt", fmt.Sprintf("unreadable %s | %s", oneLine(perr.Error()), tag))
 					c.line("src.txt", q(src))
 					c.line("text.txt", q(text))
